@@ -76,6 +76,26 @@ CHECKS = {
             'RaggedArray opens, the independent ragged decoder accepts the directory, subarrays == original + completed items, live == fresh.',
             'Trusted: RLIMIT_FSIZE as the write-failure mechanism; limits below 10 KiB (top-level README) are not explored.',
             'DESIGN.md section 4 C10, 3.5'),
+    'C17': ('crash', 'fault_enumeration', E4,
+            'For ~70 scenarios (Array 1-D/2-D and RaggedArray, empty and non-empty start; append, iterappend, failing iterappend incl. '
+            'the recovery path, truncate, six kinds of metadata change) every crash point at source-line granularity (thorough: '
+            'byte-code granularity in Darr frames plus every line of every other Python frame) is taken by reading the directory back '
+            'through the OS at that instant, and between consecutive distinct disk states every torn version the kernel can expose of '
+            'each changed file; every distinct snapshot is materialised and opened with a fresh handle: it must raise, or show the '
+            'state before, the state after, or original + whole chunks; metadata the old or the new dictionary.',
+            'Trusted: sys.settrace events as crash points (death between two system calls inside one C call, e.g. inside ndarray.tofile, '
+            'is covered by the torn variants, not observed directly); process death, not power loss; README content is outside this property.',
+            'DESIGN.md section 4 C17, 3.6'),
+    'C19': ('sched', 'model_checking', E5,
+            'Breadth-first search over ALL interleavings of start/advance/close/drop of 2 (quick) / 3 (thorough) iterchunks generators '
+            'with different chunk parameters, enter/exit of 1 / 2 nested open_array contexts, an element read and an element write on one '
+            '4 MiB Array, to the fixpoint of the state graph; every transition is one real execution in its own forked process (so a '
+            'SIGSEGV is observed), checked for: not killed, chunk == contents at the moment it was returned, StopIteration exactly at '
+            'the end, read == contents, write visible in the raw file / a fresh handle / the live handle, and in every quiescent state '
+            'no descriptor or map of the data file left.',
+            'Trusted: state canonicalisation by generic introspection of the handle and generator frames (finer than needed, never '
+            'coarser); one thread; generators and contexts are one-shot, contexts exit in LIFO order.',
+            'DESIGN.md section 4 C19, 3.7'),
     'C01': ('enum', 'exploration', E2,
             'Complete sub-products of (source type x byte order x layout x shape x input form x dtype argument x chunklen x fill) '
             'against np.asarray/astype/concatenate/full, compared in dtype.str, shape and bytes through the returned handle, a '
